@@ -191,7 +191,7 @@ def run(rep, br, proofs, rng, tier):
             rep.violation({"property": "C19", "kind": "correspondence", "why": why, "case": line}, found=False)
     rep.coverage.update({
         "evaluations": stats["calls"] + len(scs), "distinct_nontrivial": stats["returned_value"] + stats["body_reached"],
-        "rule": "every exported callable of the run-time tables (BuiltinsMap/BuiltinObjects, Module maps of fmt, json, strings, time; time and location methods by name call, error.New) x every tuple of length 0..2 (thorough: 0..3 through ValueEx) over a boundary pool of %d values of every type + sampled tuples of length 3..4 + a length sweep (bytes, strings and arrays of 14 lengths around internal buffer sizes, 48..65536, and strings and bytes ending inside a multi-byte sequence, an escape or a format verb, bare and after the start of a JSON document, alone and with small second and third arguments), through Value, ValueEx, ValueEx with the tuple split into fixed and variadic arguments, and from a compiled script on a VM without recovery; each adapter-guarded call compared with the Coq adapter model (exact error text); size-driven functions on boundary (length, count) grids compared with the Coq size guard models; non-trivial = calls that returned a value or reached the body" % P,
+        "rule": "every exported callable of the run-time tables (BuiltinsMap/BuiltinObjects, Module maps of fmt, json, strings, time; time and location methods by name call, error.New) x every tuple of length 0..2 (thorough: 0..3 through ValueEx) over a boundary pool of %d values of every type + sampled tuples of length 3..4 + a length sweep (bytes, strings and arrays of 14 lengths around internal buffer sizes, 48..65536, and strings and bytes ending inside a multi-byte sequence, an escape or a format verb, bare and after the start of a JSON document, and complete JSON documents with edge content (surrogate escapes at the end of a string, huge numbers, deep nesting), alone and with small second and third arguments), through Value, ValueEx, ValueEx with the tuple split into fixed and variadic arguments, and from a compiled script on a VM without recovery; each adapter-guarded call compared with the Coq adapter model (exact error text); size-driven functions on boundary (length, count) grids compared with the Coq size guard models; non-trivial = calls that returned a value or reached the body" % P,
         "samples": [cases[0]["line"][:300], scs[0]["line"], scs[-1]["line"]],
         "callables": len(cids), "pool": [p[0] for p in pool], "stats": stats,
         "size_cases": len(scs), "size_cases_model_only": model_only, "size_errors_seen": size_err,
